@@ -93,6 +93,7 @@ class T:
         self.tmp = 0
         self.exc = None        # (python name, coq errno variable) inside an `except OSError as e` handler
         self.narrow = {}       # optional path narrowed to a path inside `if path:`
+        self.hooks = []        # wrappers applied to every exceptional exit (pending `finally` clauses, loop results)
         self.uses_world = False
 
     def fail(self, what, node=None):
@@ -151,6 +152,19 @@ class T:
         if isinstance(e, ast.Call) and isinstance(e.func, ast.Attribute) and isinstance(e.func.value, ast.Name) \
                 and self.types.get(e.func.value.id) == 'file' and e.func.attr == 'tell' and not e.args and not e.keywords:
             return '(ftell %s)' % e.func.value.id, 'int'
+        if isinstance(e, ast.Call) and isinstance(e.func, ast.Name) and e.func.id == 'memoryview' and len(e.args) == 1 and not e.keywords:
+            a, t = self.pure(e.args[0])          # a read-only view of a bytes object: same bytes
+            if t != 'bytes': self.fail('memoryview of ' + t, e)
+            return a, 'bytes'
+        if isinstance(e, ast.Call) and isinstance(e.func, ast.Name) and e.func.id == 'len' and len(e.args) == 1 and not e.keywords:
+            a, t = self.pure(e.args[0])
+            if t != 'bytes': self.fail('len of ' + t, e)
+            return '(zlen %s)' % a, 'int'
+        if isinstance(e, ast.Compare) and len(e.ops) == 1 and isinstance(e.ops[0], (ast.Gt, ast.Lt, ast.GtE, ast.LtE)):
+            a, ta = self.pure(e.left); b, tb = self.pure(e.comparators[0])
+            if ta != 'int' or tb != 'int': self.fail('comparison of %s and %s' % (ta, tb), e)
+            op = {ast.Gt: '>?', ast.Lt: '<?', ast.GtE: '>=?', ast.LtE: '<=?'}[type(e.ops[0])]
+            return '(%s %s %s)' % (a, op, b), 'bool'
         self.fail('expression outside the subset', e)
 
     def truth(self, e):
@@ -158,6 +172,7 @@ class T:
         a, t = self.pure(e)
         if t == 'bool': return a
         if t == 'optpath': return '(truthy_path %s)' % a
+        if t == 'int': return '(negb (%s =? 0))' % a
         self.fail('truthiness of ' + t, e)
 
     # -------- effectful calls: returns (coq call text returning  W * ores T  , T, binder pattern builder)
@@ -247,9 +262,9 @@ class T:
         def prop_err(wv):
             if k_err is not None:
                 return k_err(e)
-            return '(%s, OErr %s)' % (wv, e) if self.returns_world else 'OErr %s' % e
+            return self.leave(wv, 'OErr %s' % e)
         def prop_exn(wv):
-            return '(%s, OExn %s)' % (wv, x) if self.returns_world else 'OExn %s' % x
+            return self.leave(wv, 'OExn %s' % x)
         if kind == 'world':
             self.uses_world = True
             ok = k_ok()
@@ -271,11 +286,22 @@ class T:
                     % (text, fp, pat, ok, fp, e, prop_err('w'), fp, x, prop_exn('w')))
         self.fail('call kind', c)
 
+    def plain(self, wv, r):
+        return '(%s, %s)' % (wv, r) if self.returns_world else r
+
+    def leave(self, wv, r, hooks=None):
+        """exceptional exit with outcome r: pending finally clauses run, loop results are wrapped"""
+        t = self.plain(wv, r)
+        for h in reversed(self.hooks if hooks is None else hooks):
+            t = h(t)
+        return t
+
     def ret(self, v):
-        return '(w, OOk %s)' % v if self.returns_world else 'OOk %s' % v
+        if self.hooks: self.fail('return inside try/finally or a loop')
+        return self.plain('w', 'OOk %s' % v)
 
     def reraise(self, errno_var):
-        return '(w, OErr %s)' % errno_var if self.returns_world else 'OErr %s' % errno_var
+        return self.leave('w', 'OErr %s' % errno_var)
 
     # -------- statements (continuation-passing: k() yields the translation of what follows)
     def block(self, stmts, k):
@@ -321,6 +347,17 @@ class T:
                     return nxt()
                 return self.bind(s.value, tgt.id, ty, k_ok)
             if not isinstance(tgt, ast.Name): self.fail('assignment target', s)
+            v_ = s.value
+            if isinstance(v_, ast.Subscript) and isinstance(v_.slice, ast.Slice) and v_.slice.step is None and v_.slice.upper is None \
+                    and isinstance(v_.slice.lower, ast.Call) and self.call(v_.slice.lower) is not None:
+                # x = b[<call>:]   — b is evaluated before the call; the call does not modify it
+                base, tb = self.pure(v_.value)
+                if tb != 'bytes' or not isinstance(v_.value, ast.Name): self.fail('slice of ' + tb, s)
+                n = self.fresh('n')
+                def k_ok():
+                    self.settype(tgt.id, 'bytes', s)
+                    return 'let %s := zslice (Some %s) None %s in\n%s' % (tgt.id, n, base, nxt())
+                return self.bind(v_.slice.lower, n, 'int', k_ok)
             v, ty = self.pure(s.value)
             self.settype(tgt.id, ty, s)
             return 'let %s := %s in\n%s' % (tgt.id, v, nxt())
@@ -369,6 +406,8 @@ class T:
             return self.bind(c, d, 'file', k_ok)
         if isinstance(s, ast.For):
             return self.for_(s, nxt)
+        if isinstance(s, ast.While):
+            return self.while_(s, nxt)
         if isinstance(s, ast.Return):
             if rest: self.fail('statements after return', s)
             self.saw_return = True
@@ -401,21 +440,32 @@ class T:
     def try_(self, s, nxt):
         if s.orelse: self.fail('try/else', s)
         if s.finalbody and not s.handlers:
-            # try: <one call>  finally: <one call>      (no value bound in either)
-            if len(s.body) != 1 or len(s.finalbody) != 1: self.fail('try/finally shape', s)
-            b, f = s.body[0], s.finalbody[0]
-            ok = lambda st: isinstance(st, ast.Expr) and isinstance(st.value, ast.Call) and self.call(st.value) is not None and self.call(st.value)[1] == 'world'
-            if not (ok(b) and ok(f)): self.fail('try/finally bodies must be single world calls', s)
-            bt = self.call(b.value)[0]; ft = self.call(f.value)[0]
+            # try: <block>  finally: <one world call>.  The finally clause runs on every path out of the
+            # block; an exception raised by it replaces the pending one.
+            if len(s.finalbody) != 1: self.fail('try/finally shape', s)
+            f = s.finalbody[0]
+            if not (isinstance(f, ast.Expr) and isinstance(f.value, ast.Call) and self.call(f.value) is not None and self.call(f.value)[1] == 'world'):
+                self.fail('finally body must be a single world call', s)
+            for n in ast.walk(ast.Module(body=s.body, type_ignores=[])):
+                if isinstance(n, (ast.Return, ast.Break, ast.Continue)): self.fail('return/break inside try/finally', n)
+            if not self.returns_world: self.fail('try/finally in a read-only helper', s)
+            ft = self.call(f.value)[0]
             self.uses_world = True
-            e1, x1, e2, x2 = self.fresh('e'), self.fresh('x'), self.fresh('e'), self.fresh('x')
-            body_ok = nxt()
-            # the finally clause runs on every path; an exception from it replaces the pending one
+            outer = list(self.hooks)
+            e2, x2 = self.fresh('e'), self.fresh('x')
             def fin(after):
-                return ('match %s with\n| (w, OOk _) => %s\n| (w, OErr %s) => (w, OErr %s)\n| (w, OExn %s) => (w, OExn %s)\nend'
-                        % (ft, after, e2, e2, x2, x2))
-            return ('match %s with\n| (w, OOk _) =>\n%s\n| (w, OErr %s) =>\n%s\n| (w, OExn %s) =>\n%s\nend'
-                    % (bt, fin('(\n' + body_ok + ')'), e1, fin('(w, OErr %s)' % e1), x1, fin('(w, OExn %s)' % x1)))
+                return ('match %s with\n| (w, OOk _) => %s\n| (w, OErr %s) => %s\n| (w, OExn %s) => %s\nend'
+                        % (ft, after, e2, self.leave('w', 'OErr %s' % e2, outer), x2, self.leave('w', 'OExn %s' % x2, outer)))
+            def k_body():                  # normal completion of the block: finally, then what follows the statement
+                saved = self.hooks; self.hooks = outer
+                try: inner = nxt()
+                finally: self.hooks = saved
+                return fin('(\n' + inner + ')')
+            self.hooks = outer + [fin]
+            try:
+                return self.block(s.body, k_body)
+            finally:
+                self.hooks = outer
         if s.finalbody or len(s.handlers) != 1: self.fail('try shape', s)
         h = s.handlers[0]
         if not (isinstance(h.type, ast.Name) and h.type.id == 'OSError' and h.name): self.fail('handler other than `except OSError as <name>`', s)
@@ -473,9 +523,61 @@ class T:
             '  end end.\n' % (lname, params, fp, h, r[0], fp, var, var, sent, fp, h, body, fp, e, e, fp, x, x))
         self.uses_loop = True
         e2, x2 = self.fresh('e'), self.fresh('x')
-        err = (lambda t: '(w, %s)' % t) if self.returns_world else (lambda t: t)
+        err = lambda t: self.leave('w', t)
         return ('match %s (loop_fuel %s)%s %s %s with\n| None => %s\n| Some (OOk (%s, %s)) =>\n%s\n| Some (OErr %s) => %s\n| Some (OExn %s) => %s\nend'
                 % (lname, fp, callargs, fp, h, err('OExn OtherError'), fp, h, nxt(), e2, err('OErr %s' % e2), x2, err('OExn %s' % x2)))
+
+    def while_(self, s, nxt):
+        # while len(v): <body>      v: bytes, made shorter by the body (fuel: S (length v))
+        if s.orelse: self.fail('while/else', s)
+        if not self.returns_world: self.fail('while loop in a read-only helper', s)
+        t = s.test
+        if isinstance(t, ast.Compare) and len(t.ops) == 1 and isinstance(t.ops[0], (ast.Gt, ast.NotEq)) \
+                and isinstance(t.comparators[0], ast.Constant) and t.comparators[0].value == 0:
+            lenexpr = t.left
+        else:
+            lenexpr = t
+        if not (isinstance(lenexpr, ast.Call) and isinstance(lenexpr.func, ast.Name) and lenexpr.func.id == 'len'
+                and len(lenexpr.args) == 1 and isinstance(lenexpr.args[0], ast.Name) and self.types.get(lenexpr.args[0].id) == 'bytes'):
+            self.fail('while condition other than len(<bytes>)', s)
+        measured = lenexpr.args[0].id
+        # len(v), len(v) > 0 and len(v) != 0 are the same test (a length is never negative): one canonical form
+        cond = '(negb ((zlen %s) =? 0))' % measured
+        for n in ast.walk(ast.Module(body=s.body, type_ignores=[])):
+            if isinstance(n, (ast.Break, ast.Continue, ast.Return, ast.Raise, ast.Try, ast.With, ast.For, ast.While, ast.If, ast.AugAssign)):
+                self.fail('control flow inside the while body', n)
+        state = []
+        for n in ast.walk(ast.Module(body=s.body, type_ignores=[])):
+            if isinstance(n, ast.Assign):
+                if len(n.targets) != 1 or not isinstance(n.targets[0], ast.Name): self.fail('assignment target in loop', n)
+                nm = n.targets[0].id
+                if nm not in self.types: self.fail('loop body binds a new name ' + nm, n)
+                if nm not in state: state.append(nm)
+        if measured not in state: self.fail('the measured variable is not updated by the loop', s)
+        used = {n.id for n in ast.walk(ast.Module(body=s.body + [ast.Expr(t)], type_ignores=[])) if isinstance(n, ast.Name)}
+        free = [(n, ty) for n, ty in self.types.items() if n in used and n not in state and ty in ('int', 'bytes', 'path')]
+        st = [(n, self.types[n]) for n in state]
+        if any(ty not in ('int', 'bytes') for _, ty in st): self.fail('loop state type', s)
+        lname = 'gen_%s_wloop' % self.fname
+        sub = T(self.fname, list(self.types.items()))
+        sub.returns_world = True
+        sub.hooks = [lambda x: 'Some %s' % x]
+        args = ''.join(' ' + n for n, _ in free + st)
+        body = sub.block(s.body, lambda: '%s fuel__%s w' % (lname, args))
+        params = ''.join(' (%s : %s)' % (n, COQTY[ty]) for n, ty in free + st)
+        fix = ('Fixpoint %s (fuel_ : nat)%s (w : W) {struct fuel_} : option (W * ores unit) :=\n'
+               '  match fuel_ with O => None | S fuel__ =>\n'
+               '  if %s then (\n%s)\n  else Some (w, OOk tt) end.\n' % (lname, params, cond, body))
+        if sub.aux: self.fail('nested loops', s)
+        # the continuation is duplicated into several branches: emit the loop once; a second, different loop fails closed
+        if any(a.startswith('Fixpoint %s ' % lname) and a != fix for a in self.aux): self.fail('two different while loops', s)
+        if fix not in self.aux: self.aux.append(fix)
+        self.uses_world = True
+        e, x = self.fresh('e'), self.fresh('x')
+        none = self.leave('w', 'OExn OtherError'); er = self.leave('w', 'OErr %s' % e); ex = self.leave('w', 'OExn %s' % x)
+        for n in state: del self.types[n]          # their final values are not returned by the loop: later uses fail closed
+        return ('match %s (S (length %s))%s w with\n| None => %s\n| Some (w, OOk _) =>\n%s\n| Some (w, OErr %s) => %s\n| Some (w, OExn %s) => %s\nend'
+                % (lname, measured, args, none, nxt(), e, er, x, ex))
 
 COQTY = {'path': 'bytes', 'bytes': 'bytes', 'int': 'Z', 'optpath': 'option bytes', 'remove': 'bytes -> W -> W * ores unit'}
 
